@@ -39,6 +39,11 @@ SNAPSHOT_READS = [
 ]
 
 
+# std combinators that run their closure at most once
+ONCE_COMBINATOR = re.compile(r"^core::(option::Option|result::Result)::<[^>]*>::\w+$|"
+                             r"^core::bool::<impl bool>::then|^core::ops::FnOnce::call_once$")
+
+
 class Tx:
     def __init__(self, chk, w, fx):
         self.chk, self.w, self.fx = chk, w, fx
@@ -149,9 +154,14 @@ class Tx:
                 if outs:
                     ca = max([val.get(c, 0) for c in clos] + [0])
                     if ca:
-                        add = min(2, add + ca)
-                        why[bb].append("closure run outside a scope by %s at %s"
-                                       % (t.callee.target_p(), t.span.loc()))
+                        # an external combinator may run the closure repeatedly (iterator
+                        # adaptors, for_each, try_for_each, fold ...): every run is a commit unit
+                        once = bool(tg) or ONCE_COMBINATOR.search(t.callee.target_p())
+                        add = min(2, add + (ca if once else 2))
+                        why[bb].append("closure with %d commit unit(s) run %s by %s at %s"
+                                       % (ca, "once, outside a scope," if once else
+                                          "possibly repeatedly (one commit per run)",
+                                          t.callee.target_p(), t.span.loc()))
             if fx.ext_maywrite(t, f.body) and not tg:
                 add = min(2, add + 2)
                 why[bb].append("external call that can write through the shard store, outside a "
